@@ -46,6 +46,7 @@ func vNewGov() *vGov {
 	maccPerms := map[string][]string{
 		auth.FeeCollectorName: nil,
 		types.DAOAccountName:  {auth.Burner, auth.Staking, auth.Minter},
+		"minter":              {auth.Minter},
 	}
 	g.authSpace = sdk.NewSubspace(auth.DefaultParamspace)
 	g.ak = authkeeper.NewKeeper(cdc, keyAcc, g.authSpace, maccPerms)
@@ -222,7 +223,13 @@ func VerifC17_DAO() {
 
 // VerifC11_GovHandlers: a governance message that is rejected (wrong sender, unknown action, overdraft) or whose
 // handler panics has written nothing to any store.
-func VerifC11_GovHandlers() {
+func VerifC11_GovHandlers() { vGovHandlers("C11.gov") }
+
+// VerifC17_RejectedMessagesChangeNothing: the same, read for governance: a governance message that is rejected - wrong
+// sender, unknown key, too large an amount, no recipient - changes nothing.
+func VerifC17_RejectedMessagesChangeNothing() { vGovHandlers("C17.rejected") }
+
+func vGovHandlers(p string) {
 	g := vNewGov()
 	if err := g.ak.MintCoins(g.ctx, types.DAOAccountName, sdk.NewCoins(sdk.NewCoin(sdk.DefaultStakeDenom, sdk.NewInt(1000)))); err != nil {
 		panic(err)
@@ -230,7 +237,16 @@ func VerifC11_GovHandlers() {
 	senders := []sdk.Address{g.a, g.b, g.s}
 	sender := senders[zz.Choice("sender", 3)]
 	var msg sdk.Msg
-	switch zz.Choice("msg", 5) {
+	direct := false
+	switch zz.Choice("msg", 7) {
+	case 6: // the ACL owner submits an access-control list that leaves parameters without an owner
+		bad := types.ACL{}
+		bad.SetOwner("gov/acl", g.b)
+		msg = types.MsgChangeParam{FromAddress: sender, ParamKey: "gov/acl", ParamVal: g.cdc.MustMarshalJSON(bad)}
+	case 5: // a DAO transfer without recipient handed to the handler directly (a caller that skips ValidateBasic)
+		amt := sdk.NewIntFromBigInt(zz.Big("amount", sdk.NewInt(1).BigInt(), sdk.NewInt(5000).BigInt()))
+		msg = types.MsgDAOTransfer{FromAddress: sender, ToAddress: nil, Amount: amt, Action: types.DAOTransferString}
+		direct = true
 	case 4:
 		msg = types.MsgChangeParam{FromAddress: sender, ParamKey: "bank/SendEnabled", ParamVal: g.cdc.MustMarshalJSON(true)}
 	case 0:
@@ -245,12 +261,24 @@ func VerifC11_GovHandlers() {
 		msg = types.MsgDAOTransfer{FromAddress: sender, Amount: amt, Action: types.DAOBurnString}
 	}
 	snap := g.ms.Snapshot()
-	ok, crashed := vRun(g, msg)
-	zz.Assert("C11.gov.process-keeps-running", !crashed)
-	if !ok || crashed {
-		zz.Assert("C11.gov.failed-handler-wrote-nothing", g.ms.Same(snap))
+	var ok, crashed bool
+	if direct {
+		func() {
+			defer func() {
+				if r := recover(); r != nil {
+					crashed = true
+				}
+			}()
+			ok = NewHandler(g.k)(g.ctx, msg).IsOK()
+		}()
+	} else {
+		ok, crashed = vRun(g, msg)
 	}
-	zz.Reach("C11.gov.handlers")
+	zz.Assert(p+".process-keeps-running", !crashed)
+	if !ok || crashed {
+		zz.Assert(p+".failed-handler-wrote-nothing", g.ms.Same(snap))
+	}
+	zz.Reach(p + ".handlers")
 }
 
 // VerifC17_Upgrade: the upgrade plan changes only through a MsgUpgrade (or a MsgChangeParam on gov/upgrade) whose
@@ -356,4 +384,41 @@ func VerifC03_GovFees() {
 	fm := authtypes.FeeMultipliers{FeeMultis: []authtypes.FeeMultiplier{{Key: msgs[i].Type(), Multiplier: mult}}, Default: 1}
 	zz.Assert("C03.govfees.required-fee", fm.GetFee(msgs[i]).Equal(sdk.NewInt(want[i]).Mul(sdk.NewInt(mult))))
 	zz.Reach("C03.govfees.end")
+}
+
+// VerifC17_DAOFundsAtPlainAccount: coins that reached the DAO's address before its module account existed (a genesis
+// that lists the DAO address as an ordinary account, a plain send) are the DAO's funds: reading the balance does not
+// change it, and the owner's burn / transfer moves exactly the stated amount.
+func VerifC17_DAOFundsAtPlainAccount() {
+	g := vNewGov()
+	daoAddr := g.ak.GetModuleAddress(types.DAOAccountName)
+	funder := vAddr(0x77)
+	total := sdk.NewInt(1000)
+	if err := g.ak.MintCoins(g.ctx, "minter", sdk.NewCoins(sdk.NewCoin(sdk.DefaultStakeDenom, total))); err != nil {
+		panic(err)
+	}
+	if err := g.ak.SendCoinsFromModuleToAccount(g.ctx, "minter", funder, sdk.NewCoins(sdk.NewCoin(sdk.DefaultStakeDenom, total))); err != nil {
+		panic(err)
+	}
+	if err := g.ak.SendCoins(g.ctx, funder, daoAddr, sdk.NewCoins(sdk.NewCoin(sdk.DefaultStakeDenom, total))); err != nil {
+		panic(err)
+	}
+	zz.Assert("C17.dao-plain.balance-readable", g.k.GetDAOTokens(g.ctx).Equal(total))
+	amt := sdk.NewIntFromBigInt(zz.Big("amount", sdk.NewInt(1).BigInt(), sdk.NewInt(1500).BigInt()))
+	var msg sdk.Msg
+	burn := zz.Choice("action", 2) == 1
+	if burn {
+		msg = types.MsgDAOTransfer{FromAddress: g.daoOwner, Amount: amt, Action: types.DAOBurnString}
+	} else {
+		msg = types.MsgDAOTransfer{FromAddress: g.daoOwner, ToAddress: g.s, Amount: amt, Action: types.DAOTransferString}
+	}
+	ok, crashed := vRun(g, msg)
+	zz.Assert("C17.dao-plain.no-crash", !crashed)
+	left := g.k.GetDAOTokens(g.ctx)
+	if amt.LTE(total) {
+		zz.Assert("C17.dao-plain.owner-action-moves-exactly-the-amount", ok && left.Equal(total.Sub(amt)))
+	} else {
+		zz.Assert("C17.dao-plain.not-beyond-the-balance", !ok && left.Equal(total))
+	}
+	zz.Reach("C17.dao-plain.end")
 }
